@@ -39,6 +39,7 @@ class Product:
         self.payoff = payoff
         self.maturity = maturity
         self.notional = notional
+        self._process_representation = ProcessRepresentation.IDENDITY
 
     def underlying_value(
         self, times: TimeGrid, path: np.array, jump_path: np.array
@@ -53,6 +54,9 @@ class Product:
         underlying = self.payoff_underlying.value(
             times=times, path=path, jump_path=jump_path
         )
+        # the payoff reads the path of the underlying itself (a barrier level is quoted on the spot, not on its logarithm)
+        if self._process_representation == ProcessRepresentation.LOG:
+            path = np.exp(path)
         self.payoff.process(times, path)
         return underlying
 
@@ -63,6 +67,7 @@ class Product:
                                        underlying or the log-underlying
         """
         self.payoff_underlying.update(process_representation)
+        self._process_representation = process_representation
 
     def __call__(self, underlying) -> float:
         """Applies the underlying value to the payoff product.
